@@ -19,6 +19,17 @@ def run(tier, seed):
     for r in ac.real_family_cases(rng, 1 if q else 6, 3, annotate=True):
         r["twin"] = {"by": "rot", "args": ac.twin_args(r, "rot", rng)}
         recipes.append(r)
+    # the same wrappers used twice with the feature tables of the inputs edited in place in between
+    for r in ac.real_family_cases(rng, 1 if q else 4, 3, annotate=True):
+        if rng.random() < (0.5 if q else 0.0):
+            continue
+        r["warmup"] = True
+        r["edit_between"] = []
+        for x in [r["vector"]] + r["modules"]:
+            n = len(x["seq"])
+            a = rng.randrange(n)
+            r["edit_between"].append([(a, min(n, a + rng.randint(1, 6)), rng.choice([1, -1])) for _ in range(rng.randint(1, 2))])
+        recipes.append(r)
     traces = ac.validate(run, "annotated-assemblies", recipes)
     if True:       # real registry plasmids with their own feature tables, inputs rotated by the implementation
         from . import registry_asm
